@@ -46,6 +46,12 @@ def check(ck: Check) -> None:
     for p, (mods, ths) in sorted(KERNELS.items()):
         modules += [m for m in mods if m not in modules]
         theorems += ths
+    # lean/Gen/*.lean (imported by Props.C16) must reflect the CURRENT tree before anything is built: re-run the translator
+    try:
+        from . import c16
+        c16.meta(ck)
+    except Exception as e:  # noqa: BLE001 - an untranslatable kernel is reported by ./check C16; here it is a proof failure
+        ck.proof_failures.append(f"translator (lean/Gen) could not be regenerated: {e!r}")
     drvs = [f"drv_{p.lower()}" for p in KERNELS] + EXTRA_BUILD
     ck.drv = drvs[0]
     ck.drv_root = "Driver.C01Main"
